@@ -44,6 +44,127 @@ fn flip(k: &Pubkey, at: usize) -> Pubkey {
     Pubkey::new_from_array(b)
 }
 
+/// which role a rotation instruction hands over, and the account that scopes the role
+const ROTATIONS: &[(&str, &str, &str)] = &[
+    ("set_fee_authority", "fee_authority", "whirlpools_config"),
+    ("set_collect_protocol_fees_authority", "collect_protocol_fees_authority", "whirlpools_config"),
+    ("set_reward_emissions_super_authority", "reward_emissions_super_authority", "whirlpools_config"),
+    ("set_reward_authority", "reward_authority", "whirlpool"),
+    ("set_reward_authority_by_super_authority", "reward_authority", "whirlpool"),
+    ("set_delegated_fee_authority", "delegated_fee_authority", "adaptive_fee_tier"),
+    ("set_initialize_pool_authority", "initialize_pool_authority", "adaptive_fee_tier"),
+    ("set_config_extension_authority", "config_extension_authority", "whirlpools_config_extension"),
+    ("set_token_badge_authority", "token_badge_authority", "whirlpools_config_extension"),
+];
+
+/// Authority hand-over: after a role has been handed to a new key, the previous holder is
+/// "any other signer" for that role, and the new holder has that role only.  A second
+/// hand-over (signed by the new holder) is followed the same way.
+fn handover(bs: &mut crate::catalog::Base, gs: &[crate::catalog::Golden], bank: &Bank, acc: &mut Acc) {
+    for (rname, role, scope) in ROTATIONS {
+        let Some(r) = gs.iter().find(|g| g.name == *rname) else {
+            acc.notes.push(format!("HARNESS-ERROR hand-over: no golden {rname}"));
+            acc.count("harness_errors");
+            continue;
+        };
+        let Some(newslot) = r.ix.metas.iter().position(|m| m.name.starts_with("new_")) else {
+            acc.notes.push(format!("HARNESS-ERROR hand-over: {rname} has no new_* slot"));
+            acc.count("harness_errors");
+            continue;
+        };
+        let new_key = r.ix.metas[newslot].key;
+        let (o, mut bank2) = bs.w.simulate(bank, &r.ix);
+        acc.evaluations += 1;
+        if !o.ok() {
+            continue; // reported as a failed golden by the main loop
+        }
+        bank2.airdrop(new_key, 1_000_000_000);
+        let scope_key = r.ix.slot(scope).map(|i| r.ix.metas[i].key);
+        let in_role = |g: &crate::catalog::Golden, slot: &str| -> bool {
+            if slot != *role {
+                return false;
+            }
+            // (initialize_config_extension calls the config account `config`)
+            match (scope_key, g.ix.slot(scope).or(if *scope == "whirlpools_config" { g.ix.slot("config") } else { None })) {
+                (Some(k), Some(i)) => g.ix.metas[i].key == k,
+                _ => true,
+            }
+        };
+        // stage 1: old -> new_key ; stage 2 (self-rotating roles): new_key -> third
+        let mut stages: Vec<(String, Bank, Vec<Pubkey>, Pubkey)> = vec![(format!("{rname}"), bank2.clone(), vec![], new_key)];
+        if r.auth.iter().any(|a| in_role(r, a.slot)) {
+            let third = bs.w.new_key();
+            let mut r2 = with_signer(&r.ix, role, new_key);
+            r2.metas[newslot].key = third;
+            let (o2, mut bank3) = bs.w.simulate(&bank2, &r2);
+            acc.evaluations += 1;
+            if o2.ok() {
+                bank3.airdrop(third, 1_000_000_000);
+                stages.push((format!("{rname}+again"), bank3, vec![new_key], third));
+                acc.count("second_handovers_accepted");
+            } else {
+                acc.notes.push(format!("hand-over: the new holder of {role} could not hand the role on ({:?})", o2.err));
+                acc.count("handover_new_holder_not_accepted");
+            }
+        }
+        for (sname, bk, former, holder) in &stages {
+            for g in gs {
+                for a in &g.auth {
+                    if !matches!(a.kind, AuthKind::Setting { .. }) {
+                        continue;
+                    }
+                    let old = g.ix.key(a.slot);
+                    let dep = in_role(g, a.slot);
+                    let (oo, _) = bs.w.simulate(bk, &g.ix);
+                    let (on, bn) = bs.w.simulate(bk, &with_signer(&g.ix, a.slot, *holder));
+                    acc.evaluations += 2;
+                    acc.count("handover_probes");
+                    acc.situation(format!("handover:{sname}:{}:{}", g.ix.name, if dep { "same_role" } else { "other_role" }));
+                    let mut viol = |acc: &mut Acc, what: &str, detail: String| {
+                        acc.violation(format!("c04:handover:{rname}:{}:{what}", g.ix.name), detail, json!({"rotation": sname, "golden": g.name, "slot": a.slot, "role_handed_over": role}));
+                    };
+                    if dep {
+                        if oo.ok() && on.ok() {
+                            viol(acc, "previous_and_new_holder_both_accepted", format!("after {sname} handed {role} to {holder}, {} succeeds for the previous holder {old} and for the new one", g.name));
+                        } else if on.ok() {
+                            acc.count("handover_role_followed");
+                        } else if oo.ok() {
+                            acc.notes.push(format!("hand-over {sname}: {} still answers to the previous holder only (the hand-over did not reach it)", g.name));
+                            acc.count("handover_without_effect");
+                        } else {
+                            acc.count("handover_nobody_accepted");
+                        }
+                        for f in former {
+                            if f == &old {
+                                continue;
+                            }
+                            let (of, _) = bs.w.simulate(bk, &with_signer(&g.ix, a.slot, *f));
+                            acc.evaluations += 1;
+                            if of.ok() {
+                                viol(acc, "former_holder_accepted", format!("after {sname}, {} succeeds for {f}, who handed {role} on", g.name));
+                            } else {
+                                acc.count("handover_former_holder_rejected");
+                            }
+                        }
+                    } else {
+                        if on.ok() {
+                            viol(acc, "new_holder_of_another_role_accepted", format!("after {sname} handed only {role} to {holder}, {} (authority slot `{}`) succeeds with {holder} signing", g.name, a.slot));
+                        } else {
+                            acc.count("handover_other_role_rejected");
+                            if !bn.diff(bk).is_empty() {
+                                viol(acc, "state_changed_by_failed_tx", "bank changed by a failed transaction".to_string());
+                            }
+                        }
+                        if !oo.ok() {
+                            viol(acc, "unrelated_authority_lost_its_role", format!("after {sname} handed {role} on, {} no longer succeeds for its recorded authority {old} (slot `{}`): {:?}", g.name, a.slot, oo.err));
+                        }
+                    }
+                }
+            }
+        }
+    }
+}
+
 pub fn run(tier: Tier, seed: u64) -> i32 {
     let mut rep = Report::new("C04", tier, seed);
     rep.exhaustive = true;
@@ -285,6 +406,7 @@ pub fn run(tier: Tier, seed: u64) -> i32 {
                 }
             }
         }
+        handover(&mut bs, &gs, &bank, &mut acc);
     }
     if acc.get("uncatalogued_instructions") > 0 {
         acc.count("harness_errors");
@@ -295,5 +417,8 @@ pub fn run(tier: Tier, seed: u64) -> i32 {
     rep.floor("legitimate_delegate_passes", 10);
     rep.floor("multisig_forgeries_built", 5);
     rep.floor("creation_authority_checks", 2);
+    rep.floor("handover_role_followed", 20);
+    rep.floor("handover_other_role_rejected", 150);
+    rep.floor("second_handovers_accepted", 4);
     rep.finish()
 }
